@@ -5,21 +5,25 @@ CONSTANTS
   PartPool <- MCPartPool
   EnvPool <- MCEnvPool
   LimitsOf <- MCLimitsOf
-  Sizes <- NoSizes
-  RDelims <- NoRDelims
+  Sizes <- ExpSizes
+  RDelims <- ExpRDelims
   MaxParts = 1
-  MaxOps = 0
+  MaxOps = 1
   ContentSel = {6}
   ProfileSel = {1}
-  UseJson = FALSE
+  UseJson = TRUE
   BoundarySel = {1}
   PreSel = {1}
   EpiSel = {1}
   FinSel = {TRUE}
-  LimModes = {"base"}
-  EditPos <- AllPos
-  EditKinds = {"del", "ins", "sub"}
-  EditVals = {45, 13, 10, 88}
+  LimModes = {"base", "buf"}
+  EditPos <- FewPos
+  EditKinds = {"del", "sub"}
+  EditVals = {88}
   Depth = 0
+INVARIANT ParseOfEncodeIsForm
+INVARIANT LimitsExactAtThreshold
 INVARIANT ContentExact
 INVARIANT CorruptionIsErrorOrWellDefined
+PROPERTY MCBufferLimitExact
+PROPERTY MCProgress
